@@ -84,13 +84,39 @@ func (g *mgGen) act(slot int, src, tok string) (string, string) {
 	return fmt.Sprintf("l%d = %s\n", slot, src), fmt.Sprintf("act %d", len(g.acts)-1)
 }
 
-func (g *mgGen) cnd() (string, string) {
+// bexp: a condition — comparisons combined with && || ! (short-circuit: the right operand may divide
+// by something the left operand has just excluded)
+func (g *mgGen) bexp(d int) (src, tok string) {
 	r := g.r
+	if d > 0 {
+		switch r.Intn(8) {
+		case 0, 1:
+			a, at := g.bexp(d - 1)
+			b, bt := g.bexp(d - 1)
+			return "(" + a + " && " + b + ")", "and " + at + " " + bt
+		case 2, 3:
+			a, at := g.bexp(d - 1)
+			b, bt := g.bexp(d - 1)
+			return "(" + a + " || " + b + ")", "or " + at + " " + bt
+		case 4:
+			a, at := g.bexp(d - 1)
+			return "!(" + a + ")", "not " + at
+		case 5: // the guard idiom
+			i := r.Intn(mgLocals)
+			e, et := g.expr(1)
+			return fmt.Sprintf("(l%d != 0 && (%s / l%d) > 1)", i, e, i), fmt.Sprintf("and neq l%d n0 gt / %s l%d n1", i, et, i)
+		}
+	}
 	a, at := g.expr(1)
 	b, bt := g.expr(1)
 	op := Pick(r, [][2]string{{"<", "lt"}, {"<=", "lte"}, {">", "gt"}, {">=", "gte"}, {"==", "eq"}, {"!=", "neq"}})
-	g.cnds = append(g.cnds, fmt.Sprintf("C %s %s %s", op[1], at, bt))
-	return fmt.Sprintf("%s %s %s", a, op[0], b), fmt.Sprint(len(g.cnds) - 1)
+	return fmt.Sprintf("%s %s %s", a, op[0], b), fmt.Sprintf("%s %s %s", op[1], at, bt)
+}
+
+func (g *mgGen) cnd() (string, string) {
+	src, tok := g.bexp(g.r.Intn(3))
+	g.cnds = append(g.cnds, "C "+tok)
+	return src, fmt.Sprint(len(g.cnds) - 1)
 }
 
 // stmt returns source text and model tokens (prefix form)
